@@ -201,6 +201,27 @@ func bigIntrinsic(name string) intrinsic {
 			setBig(a[0].(*value), mkBig(st, st.BV2Nat(bytesTerm(st, bs))))
 			return a[0]
 		}
+	case "SetBits":
+		// little-endian machine words (uint256.ToBig): the value is sum(word_i * 2^(64 i))
+		return func(fr *frame, a []value) value {
+			st := fr.st()
+			ws := a[1].([]value)
+			if len(ws) == 0 {
+				setBig(a[0].(*value), &bigPayload{c: new(big.Int)})
+				return a[0]
+			}
+			var acc *Term
+			for i := len(ws) - 1; i >= 0; i-- { // most significant word first
+				w := lift(st, ws[i])
+				if acc == nil {
+					acc = w
+				} else {
+					acc = st.Concat(acc, w)
+				}
+			}
+			setBig(a[0].(*value), mkBig(st, st.BV2Nat(acc)))
+			return a[0]
+		}
 	case "SetBit":
 		return concOnly("SetBit", func(fr *frame, a []value) value {
 			x := getBig(fr, a[1])
